@@ -100,7 +100,7 @@ def S_to_bits(nb, canon, be=False):
             outs = outs[::-1]
         assert len(O) == n, (len(O), n)
         bits = AND(*[isbit(o) for o in outs])
-        v = wsum(outs)
+        v = e.named_sum([(1 << i, o) for i, o in enumerate(outs)])
         if canon or n < NB:
             return AND(bits, eq(I[0], v))
         return AND(bits, OR(eq(I[0], v), eq(f"(+ {A(I[0])} {P})", v)))
@@ -114,7 +114,7 @@ def S_to_bytes(nb, be=False):
         if be:
             outs = outs[::-1]
         assert len(O) == n
-        return AND(*[lt(o, 256) for o in outs], eq(I[0], wsum(outs, 256)))
+        return AND(*[lt(o, 256) for o in outs], eq(I[0], e.named_sum([(256 ** i, o) for i, o in enumerate(outs)])))
     return spec
 
 
@@ -127,7 +127,7 @@ def S_from(n, base, be=False):
         # value is the integer sum reduced mod P (definitional r with explicit quotient)
         r = e.fresh("sr", 0, P - 1)
         q = e.fresh("sq", 0, (base ** n) // P + 1)
-        e.lines.append(f"(assert (=> {dom} (= {wsum(ins, base)} (+ {r} (* {P} {q})))))")
+        e.lines.append(f"(assert (=> {dom} (= {e.named_sum([(base ** i, x) for i, x in enumerate(ins)])} (+ {r} (* {P} {q})))))")
         return AND(dom, eq(O[0], r))
     return spec
 
@@ -136,7 +136,7 @@ def S_to_chunks(bits, nb):
     def spec(e, I, O):
         n = nb if nb is not None else -(-NB // bits)
         assert len(O) == n, (len(O), n)
-        return AND(*[lt(o, 1 << bits) for o in O], eq(I[0], wsum(O, 1 << bits)))
+        return AND(*[lt(o, 1 << bits) for o in O], eq(I[0], e.named_sum([((1 << bits) ** i, o) for i, o in enumerate(O)])))
     return spec
 
 
